@@ -6,6 +6,7 @@ open Op2
 def handleStrPath (cmd : String) (args : List String) : Option String :=
   match cmd, args with
   | "str.lt", [a, b] => do let a ← hex? a; let b ← hex? b; pure (showBool (Str.ltCI a b))
+  | "path.cmpfn", [a, b] => do let a ← hex? a; let b ← hex? b; pure (showBool (Str.ltCI (Path.getFilename a) (Path.getFilename b)))
   | "str.eq", [a, b] => do let a ← hex? a; let b ← hex? b; pure (showBool (Str.eqCI a b))
   | "str.upper", [a] => do let a ← hex? a; pure (hexOfBytes (Str.toUpper a))
   | "str.lower1", [a] => do let a ← nat? a; pure (toString (Str.lowerI (UInt8.ofNat a)))
